@@ -73,7 +73,7 @@ def ref_prop_single(segments, one_is_b=True):
 
 
 SCENARIOS = {
-    "C11": ["rabi", "zero_drive", "bit_order", "detection_errors", "sampling_dist"],
+    "C11": ["rabi", "zero_drive", "bit_order", "detection_errors", "sampling_dist", "v2_duration", "v2_duration"],
     "C07": ["ramsey"],
     "C15": ["drift"],
 }
@@ -152,6 +152,63 @@ def run_rabi(p, stats):
     if abs(got - exp) > tol:
         return [("C11/rabi", f"resonant constant pulse Omega={p['omega']} for {p['duration']} ns in {p['basis']}: excitation {got:.5f}, analytic sin^2(Omega t/2) = {exp:.5f}")]
     return []
+
+
+def gen_v2dur(rng):
+    lo, hi = G.pick(rng, [(16, 200), (200, 2000), (2000, 4100), (2000, 4100), (4100, 9000)])
+    return {"basis": G.pick(rng, ["ground-rydberg", "digital", "XY"]), "omega": round(rng.uniform(0.5, 4.0), 4), "duration": rng.randint(lo, hi), "idle": G.pick(rng, [0, 0, rng.randint(16, 300)]), "eval": G.pick(rng, [[1.0], [0.0, 0.5, 1.0], [0.25, 1.0]]), "sampling_rate": G.pick(rng, [1.0, 1.0, 0.5])}
+
+
+def run_v2dur(p, stats):
+    """'for every sequence duration ... and choice of evaluation times': legacy
+    emulator and V2 backend on one driven atom, any total duration."""
+    from pulser import Pulse
+    from pulser.backend import StateResult
+    from pulser_simulation import QutipBackendV2, QutipConfig, QutipEmulator
+
+    seq, ids = _seq(p["basis"])
+    seq.declare_channel("ch", BASIS_CH[p["basis"]][0])
+    if p["idle"]:
+        seq.delay(p["idle"], "ch")
+    seq.add(Pulse.ConstantPulse(p["duration"], p["omega"], 0.0, 0.0), "ch")
+    T = p["idle"] + p["duration"]
+    stats["sim_ns"] += 2 * T
+    out = []
+    exp = math.sin(p["omega"] * p["duration"] * 1e-3 / 2) ** 2
+    tol = 2e-3 + 0.55e-3 * p["omega"]
+    try:
+        # the legacy emulator takes absolute times in us
+        emu = QutipEmulator.from_sequence(seq, sampling_rate=p["sampling_rate"], evaluation_times=[x * T / 1000 for x in p["eval"]])
+        lres = emu.run()
+        lfin = lres.get_final_state().full()
+    except Exception as e:  # noqa: BLE001
+        return [("C11/legacy-run-raised", f"legacy emulator raised {type(e).__name__}: {str(e)[:120]} for a {T} ns sequence, evaluation times {p['eval']}")]
+    times = [r.evaluation_time for r in lres._results] if hasattr(lres, "_results") else []
+    if times and (max(times) > 1.0 + 1e-12 or min(times) < 0.0):
+        out.append(("C11/legacy-times-outside-unit-interval", f"legacy results for a {T} ns sequence carry relative times {min(times)!r}..{max(times)!r}"))
+    try:
+        cfg = QutipConfig(observables=[StateResult(evaluation_times=p["eval"])], sampling_rate=p["sampling_rate"])
+        vres = QutipBackendV2(seq, config=cfg).run()
+        vt = vres.get_result_times("state")
+        vfin = vres.get_result("state", vt[-1]).to_qobj().full()
+    except Exception as e:  # noqa: BLE001
+        out.append(("C11/v2-run-fails-where-legacy-runs", f"QutipBackendV2 raised {type(e).__name__}: {str(e)[:120]} for a {T} ns sequence (evaluation times {p['eval']}) that the legacy emulator runs"))
+        return out
+    if len(vt) != len(p["eval"]) or abs(vt[-1] - 1.0) > 1e-9:
+        out.append(("C11/v2-times", f"V2 stored states at {vt} for requested evaluation times {p['eval']} ({T} ns)"))
+    # as density matrices: a global phase is not a property of the state
+    ra = lfin @ lfin.conj().T if lfin.shape[1] == 1 else lfin
+    rb = vfin @ vfin.conj().T if vfin.shape[1] == 1 else vfin
+    if np.abs(ra - rb).max() > 5e-4:
+        out.append(("C11/legacy-v2-differ", f"final states of the legacy emulator and the V2 backend differ by {np.abs(ra - rb).max():.3g} for a {T} ns sequence"))
+    one_idx = {"ground-rydberg": 0, "digital": 1, "XY": 1}[p["basis"]]
+    got = float(abs(vfin[one_idx, 0]) ** 2)
+    if abs(got - exp) > tol:
+        out.append(("C11/rabi", f"V2: resonant constant pulse Omega={p['omega']} for {p['duration']} ns in {p['basis']}: excitation {got:.5f}, analytic {exp:.5f}"))
+    stats["probe/v2_duration_sweep"] += 1
+    if T >= 2000:
+        stats["probe/v2_long_duration"] += 1
+    return out
 
 
 def gen_zero(rng):
@@ -375,5 +432,5 @@ def run_drift(p, stats):
     return []
 
 
-GEN = {"rabi": gen_rabi, "zero_drive": gen_zero, "bit_order": gen_bits, "detection_errors": gen_det, "sampling_dist": gen_dist, "ramsey": gen_ramsey, "drift": gen_drift}
-RUN = {"rabi": run_rabi, "zero_drive": run_zero, "bit_order": run_bits, "detection_errors": run_det, "sampling_dist": run_dist, "ramsey": run_ramsey, "drift": run_drift}
+GEN = {"v2_duration": gen_v2dur, "rabi": gen_rabi, "zero_drive": gen_zero, "bit_order": gen_bits, "detection_errors": gen_det, "sampling_dist": gen_dist, "ramsey": gen_ramsey, "drift": gen_drift}
+RUN = {"v2_duration": run_v2dur, "rabi": run_rabi, "zero_drive": run_zero, "bit_order": run_bits, "detection_errors": run_det, "sampling_dist": run_dist, "ramsey": run_ramsey, "drift": run_drift}
